@@ -196,7 +196,9 @@ def build_class(run, cs):
         bases.append(base)
     if shape == "namedtuple":
         bases.append(collections.namedtuple(name + "Base", ["x"]))
-    if cs.get("dbc", True) and shape != "namedtuple" and not any(isinstance(b, icontract.DBCMeta) for b in bases):
+    if shape == "listlike" and base is None:
+        bases.append(list)  # a built-in with its own (slot-wrapper) __init__ and __new__; the class defines no constructor
+    if cs.get("dbc", True) and shape not in ("namedtuple",) and not any(isinstance(b, icontract.DBCMeta) for b in bases):
         bases.append(icontract.DBC)
     if shape == "dataclass":
         ns["__annotations__"] = {"x": int}
@@ -221,9 +223,16 @@ def build_class(run, cs):
     for i, inv in enumerate(cs.get("invs", ())):
         sid = "%s/inv%d" % (name, i)
 
-        def mk(_sid):
-            def c(self):
-                return run.hit(_sid, "inv", self)
+        def mk(_sid, _content=inv.get("content")):
+            if _content == "le2":
+
+                def c(self):
+                    return run.hit(_sid, "inv", self) and list.__len__(self) <= 2
+
+            else:
+
+                def c(self):
+                    return run.hit(_sid, "inv", self)
 
             c.__name__ = "i_" + core._san(_sid)
             return c
@@ -234,6 +243,17 @@ def build_class(run, cs):
     world.classes[name] = cls
     world.cspec[name] = cs
     return cls
+
+
+def _root_shape(world, cname):
+    while cname:
+        cs = world.cspec.get(cname)
+        if cs is None:
+            return None
+        if not cs.get("base"):
+            return cs.get("shape", "plain")
+        cname = cs.get("base")
+    return None
 
 
 def _spec_has_init(world, cname):
@@ -314,13 +334,17 @@ def generate(r, tier):
     engine = "sync" if r.random() < 0.8 else "loop"
     classes = []
     n_roots = 1
-    shapes_root = r.choice([["plain"], ["plain"], ["slots"], ["dataclass"], ["namedtuple"], ["plain"]])
+    shapes_root = r.choice([["plain"], ["plain"], ["slots"], ["dataclass"], ["namedtuple"], ["plain"], ["listlike"]])
     inv_mix = r.choice([["CALL"], ["CALL", "SETATTR", "ALL"], ["SETATTR", "CALL"], ["CALL", "CALL", "ALL"], ["SETATTR"]])
     root = {"name": "K0", "shape": shapes_root[0], "dbc": shapes_root[0] != "namedtuple" and r.random() < 0.8, "invs": [], "members": []}
     if root["shape"] in ("plain", "slots"):
         root["init"] = {"super": "first"} if r.random() < 0.8 else None
+    if root["shape"] == "listlike":
+        root["init"] = None
         if root["init"] is not None and r.random() < 0.3:
             root["init_sets_attr"] = True
+
+    classes_shape = [shapes_root[0]]
 
     def gen_members(c, level):
         pool = [("m%d" % level, "method"), ("n%d" % level, "method"), ("_p%d" % level, "protected"), ("__q%d" % level, "private"), ("s%d" % level, "static"), ("c%d" % level, "class"), ("pr%d" % level, "prop")]
@@ -338,7 +362,7 @@ def generate(r, tier):
                 m["set"] = r.random() < 0.6
                 m["del"] = r.random() < 0.3
             c["members"].append(m)
-        if r.random() < 0.5:
+        if r.random() < 0.5 and classes_shape[0] != "listlike":
             d = r.choice(DUNDERS)
             c["members"].append({"name": d, "kind": "dunder"})
         # overriding a base member
@@ -346,14 +370,19 @@ def generate(r, tier):
 
     gen_members(root, 0)
     for i in range(r.randint(0, 3)):
-        root["invs"].append({"check_on": r.choice(inv_mix)})
+        inv = {"check_on": r.choice(inv_mix)}
+        if root["shape"] == "listlike" and r.random() < 0.6:
+            inv["content"] = "le2"  # the invariant also looks at the content the constructor fills in
+        root["invs"].append(inv)
     classes.append(root)
     depth = r.choice([0, 1, 1, 2]) if root["dbc"] and root["shape"] in ("plain", "slots", "dataclass") else 0
+    if root["shape"] == "listlike" and root["dbc"]:
+        depth = r.choice([0, 0, 1])
     prev = root
     for lvl in range(1, depth + 1):
         c = {"name": "K%d" % lvl, "shape": "plain" if prev["shape"] != "slots" else r.choice(["plain", "slots"]), "dbc": True, "base": prev["name"], "invs": [], "members": []}
         has_init_above = any(x.get("init") is not None or x["shape"] == "dataclass" for x in classes)
-        if prev["shape"] == "dataclass":
+        if prev["shape"] == "dataclass" or root["shape"] == "listlike":
             c["init"] = None
         elif r.random() < 0.6:
             c["init"] = {"super": r.choice(["first", "first", "last", "never"])}
@@ -390,6 +419,8 @@ def generate(r, tier):
             label = "o%d" % nobj
             nobj += 1
             op = {"op": "new", "cls": c["name"], "obj": label}
+            if hierarchy(scn, c["name"])[-1].get("shape") == "listlike":
+                op["content"] = r.choice([0, 1, 2, 3, 3])
             if r.random() < 0.12 and core_has_ctor_body(scn, c["name"]):
                 al, _, _ = inv_sets(scn, c["name"])
                 if al:
@@ -401,7 +432,8 @@ def generate(r, tier):
             if "ctor_raise" in op and r.random() < 0.5:
                 op["drop"] = True  # forget the failed object entirely (its address may be reused by the next instance)
             ops.append(op)
-            if "ctor_raise" not in op and "flags" not in op:
+            content_bad = op.get("content", 0) > 2 and any(i.get("content") == "le2" for x in hierarchy(scn, c["name"]) for i in x.get("invs", ()))
+            if "ctor_raise" not in op and "flags" not in op and not content_bad:
                 objs[label] = c["name"]
             elif "ctor_raise" in op and not op.get("drop"):
                 failed[label] = c["name"]
@@ -462,6 +494,8 @@ def _ticket(scn, op, i, tag="a"):
         td = {"id": tid, "fn": "__init__", "op": "new", "cls": op["cls"], "obj": op["obj"]}
         if op.get("flags"):
             td["flags"] = op["flags"]
+        if "content" in op:
+            td["content"] = op["content"]
         if op.get("ctor_raise"):
             td["body"] = {"fault": {"kind": "raise:FaultError", "at": op["ctor_raise"]}}
         return td
@@ -496,7 +530,9 @@ def _resolve_c03(run, scn):
             label = td["obj"]
 
             def thunk():
-                if shape == "namedtuple":
+                if _root_shape(world, td["cls"]) == "listlike":
+                    o = cls(list(range(td.get("content", 1))))
+                elif shape == "namedtuple":
                     o = cls(1)
                 elif shape == "dataclass" or not _spec_has_init(world, td["cls"]):
                     o = cls()
@@ -656,6 +692,11 @@ def judge(scn, run):
             cname = op["cls"]
             cls_of[label] = cname
             state[label] = dict(op.get("flags") or {})
+            if op.get("content", 0) > 2:
+                for x in hierarchy(scn, cname):
+                    for i_, inv in enumerate(x.get("invs", ())):
+                        if inv.get("content") == "le2":
+                            state[label]["%s/inv%d" % (x["name"], i_)] = False
         else:
             cname = cls_of.get(label)
             if cname is None:
